@@ -50,6 +50,8 @@ def split(b):
         if n < 0:
             _, pos = zz(b, pos)
             n = -n
+        if n > 10000:
+            raise ValueError("implausible metadata count")
         for _ in range(n):
             kl, pos = zz(b, pos)
             k = b[pos:pos + kl]; pos += kl
@@ -61,6 +63,8 @@ def split(b):
     while pos < len(b):
         c, pos = zz(b, pos)
         s, pos = zz(b, pos)
+        if c < 0 or s < 0 or pos + s + 16 > len(b):
+            raise ValueError("not a well-formed block")
         blocks.append((c, b[pos:pos + s])); pos += s + 16
     return meta, marker, blocks
 
@@ -106,11 +110,11 @@ def run(prop, tier, seed, replay=None):
     lines += [l for l in rnd.read_text().splitlines() if l.strip()]
     (work / "scn.ndjson").write_text("\n".join(lines) + "\n")
     prep = work / "prep.ndjson"
-    subprocess.run([str(avh), "prep", "--scn", str(work / "scn.ndjson"), "--out", str(prep)], check=True)
+    subprocess.run([str(avh), "prep", "--scn", str(work / "scn.ndjson"), "--out", str(prep)], check=True, timeout=900)
     preps = [json.loads(l) for l in prep.read_text().splitlines() if l.strip()]
     # ---- library writes -> independent reads
     wev = work / "written.ndjson"
-    subprocess.run([str(avh), "write", "--prep", str(prep), "--out", str(wev)], check=True)
+    subprocess.run([str(avh), "write", "--prep", str(prep), "--out", str(wev)], check=True, timeout=1800)
     events = []
     for l in wev.read_text().splitlines():
         e = json.loads(l)
@@ -150,7 +154,7 @@ def run(prop, tier, seed, replay=None):
     ff = work / "files.ndjson"
     ff.write_text("\n".join(json.dumps(f) for f in files) + "\n")
     fev = work / "fed.ndjson"
-    subprocess.run([str(avh), "read", "--files", str(ff), "--out", str(fev), "--first-id", str(len(events))], check=True)
+    subprocess.run([str(avh), "read", "--files", str(ff), "--out", str(fev), "--first-id", str(len(events))], check=True, timeout=1800)
     events += [json.loads(l) for l in fev.read_text().splitlines() if l.strip()]
     for i, e in enumerate(events):
         e["id"] = i
